@@ -335,6 +335,17 @@ class SymContext(object):
         from . import models
         return models.NDArr(rows)
 
+    def matrix_rows(self, m):
+        return [list(r) for r in m.rows]
+
+    def element(self, local, attrib=None, children=()):
+        from . import models
+        return models.make_element(self.ip, local, attrib, children)
+
+    def numstr(self, x):
+        """the attribute string of a number (LEX: float() of it is the number)"""
+        return self._I.TokStr([self._I.Num(x)])
+
     # ---- assumed dependency models supplied by the contract
     def roots_model(self, fn):
         """numpy.roots(p) returns fn(p): an arbitrary list chosen by the contract (assumed
@@ -566,6 +577,19 @@ class ConcContext(object):
     def matrix(self, rows):
         import numpy as np
         return np.array([[float(x) for x in r] for r in rows])
+
+    def matrix_rows(self, m):
+        return [[float(x) for x in r] for r in m]
+
+    def element(self, local, attrib=None, children=()):
+        import xml.etree.ElementTree as ET
+        e = ET.Element('{http://www.w3.org/2000/svg}' + local, {k: str(v) for k, v in (attrib or {}).items()})
+        for ch in children:
+            e.append(ch)
+        return e
+
+    def numstr(self, x):
+        return repr(float(x))
 
     def roots_model(self, fn):
         import numpy as np
